@@ -17,9 +17,17 @@ class Unreachable(RuntimeError):
     pass
 
 
+def round_f32(v: float) -> float:
+    """Round to the nearest value which an f32 can have"""
+    try:
+        return struct.unpack("f", struct.pack("f", v))[0]
+    except OverflowError:
+        return math.copysign(math.inf, v)
+
+
 def f32_sqrt(v: ir.f32) -> ir.f32:
     """Square root"""
-    return math.nan if v < 0 else math.sqrt(v)
+    return math.nan if v < 0 else round_f32(math.sqrt(v))
 
 
 def f64_sqrt(v: ir.f64) -> ir.f64:
@@ -184,7 +192,7 @@ def f64_promote_f32(v: ir.f32) -> ir.f64:
 
 
 def f32_demote_f64(v: ir.f64) -> ir.f32:
-    return v
+    return round_f32(v)
 
 
 def f64_reinterpret_i64(v: ir.i64) -> ir.f64:
